@@ -517,6 +517,8 @@ class DictList(list):
         if isinstance(removed, list):
             self._generate_index()
             return
+        if index < 0:
+            index += len(self) + 1
         _dict = self._dict
         _dict.pop(removed.id)
         for i, j in _dict.items():
